@@ -10,6 +10,8 @@ def check(ctx):
     indexing.no_positional_columns(ctx, 'C10-R2')
     screening.normalisation(ctx, 'C10-R3', 'C10-R3')
     screening.required_columns(ctx, 'C10-R3')
+    indexing.name_keyed_operations(ctx, 'C10-R4')
+    indexing.positions_are_not_labels(ctx, 'C10-R5')
     ctx.undecided += ['value equality of coerced dtypes (e.g. integer dt cast to float is exact only up to 2**53)']
     ctx.assumptions += ['a frame whose index was reset has unique labels; row filters and sorts keep labels unique; '
                         'boolean-Series selection and .loc[labels] are label-aligned (pandas semantics, A1)']
